@@ -391,3 +391,11 @@ def rule_worker_loops(ctx):
 
 
 RULES.append(("C13.h", "run loops stop only when the worker's queues are empty (a task left in a parked worker's queue is a wake-up that does not lead to a poll)", rule_worker_loops))
+
+
+def rule_mustpass(ctx):
+    from . import mustpass
+    mustpass.check(ctx, ['st-spawn-enqueues', 'mt-spawn-enqueues'])
+
+
+RULES.append(("C13.i", "must-pass-through: no path around the effects this property rests on (added fast paths / early returns)", rule_mustpass))
